@@ -55,13 +55,16 @@ def accept_formula(facts, body, start, accept_blocks, stop):
     return eb, f
 
 
+FILTERS = ('NoFilter', 'Middle', 'Strict')
+
+
 def truth(facts, body, f):
-    """evaluate formula over atoms A=valid_base, Q=(filter==Strict), V=valid_qual"""
+    """evaluate formula over A = valid_base, the QualFilter value, V = valid_qual (12 rows)"""
     rows = {}
     for A in (0, 1):
-        for Q in (0, 1):
+        for F in FILTERS:
             for V in (0, 1):
-                def leaf(x, A=A, Q=Q, V=V):
+                def leaf(x, A=A, F=F, V=V):
                     if x[0] == 'call':
                         n = x[1]
                         if n.endswith('bit_encoding::valid_base'):
@@ -69,12 +72,13 @@ def truth(facts, body, f):
                         if n.endswith('::valid_qual'):
                             return V
                         if n.endswith('PartialEq>::ne') or n.endswith('PartialEq>::eq') or n.endswith('::ne') or n.endswith('::eq'):
-                            which = [_strict_promoted(facts, body, a) for a in x[2]]
-                            if 'Strict' not in which:
-                                raise Unevaluable('comparison is not against QualFilter::Strict: %r' % (which,))
-                            return Q if n.endswith('eq') else 1 - Q
+                            which = [w for w in (_strict_promoted(facts, body, a) for a in x[2]) if w]
+                            if len(which) != 1:
+                                raise Unevaluable('comparison is not against a QualFilter constant: %r' % (which,))
+                            same = int(which[0] == F)
+                            return same if n.endswith('eq') else 1 - same
                     raise Unevaluable()
-                rows[(A, Q, V)] = bool(eval_formula(f, lambda ex: eval_expr(ex, leaf)))
+                rows[(A, F, V)] = bool(eval_formula(f, lambda ex: eval_expr(ex, leaf)))
     return rows
 
 
@@ -123,7 +127,8 @@ def run(facts, chk, tier, only=None):
         ebb = ExprBuilder(build)
         # build: loop head = switch on Lt(i, k); body start = its true target; accept = block calling encode_base;
         heads = [b.idx for b in build.blocks if b.idx in build.live_blocks() and b.term.k == 'switch' and
-                 ebb.operand(b.term.discr)[0] == 'bin' and ebb.operand(b.term.discr)[1] == 'Lt' and build.in_cycle(b.idx)]
+                 ebb.operand(b.term.discr)[0] == 'bin' and ebb.operand(b.term.discr)[1] == 'Lt' and build.in_cycle(b.idx) and
+                 show(ExprBuilder(build, through_vars=False).operand(b.term.discr)[2]) == 'i']
         if len(heads) != 1:
             raise AnchorLost('build: %d loop heads `i < k`' % len(heads))
         head = heads[0]
@@ -153,20 +158,20 @@ def run(facts, chk, tier, only=None):
     r = chk.guard('C12.sibling', 'C12.sibling:build/roll_fwd', sibling)
     if r is not None:
         tb, tr, pos, fb, fr = r
-        spec_acc = {(A, Q, V): bool(A and ((not Q) or V)) for A in (0, 1) for Q in (0, 1) for V in (0, 1)}
+        spec_acc = {(A, F, V): bool(A and ((F != 'Strict') or V)) for A in (0, 1) for F in FILTERS for V in (0, 1)}
         bad_b = [k for k in spec_acc if tb[k] != spec_acc[k]]
         bad_r = [k for k in spec_acc if tr[k] != (not spec_acc[k])]
         if bad_b:
             chk.violation('C12.sibling', 'C12.sibling:build:accept', where=SK + 'build',
-                          detail='accept predicate in build differs from valid_base && (filter != Strict || valid_qual) at (valid,strict,qual_ok)=%s; extracted: %s' % (bad_b, fb), evals=8)
+                          detail='accept predicate in build differs from valid_base && (filter != Strict || valid_qual) at (valid, filter, qual_ok)=%s; extracted: %s' % (bad_b, fb), evals=12)
         else:
-            chk.ok('C12.sibling', 'C12.sibling:build:accept', SK + 'build', 'accept <=> valid_base && (filter != Strict || valid_qual): 8 rows', evals=8,
+            chk.ok('C12.sibling', 'C12.sibling:build:accept', SK + 'build', 'accept <=> valid_base && (filter != Strict || valid_qual): 12 rows', evals=12,
                    sample=dict(fn='build', formula=fb[:300]))
         if bad_r:
             chk.violation('C12.sibling', 'C12.sibling:roll_fwd:restart', where=SK + 'roll_fwd',
-                          detail='restart predicate in roll_fwd is not the negation of the accept predicate at (valid,strict,qual_ok)=%s; extracted: %s' % (bad_r, fr), evals=8)
+                          detail='restart predicate in roll_fwd is not the negation of the accept predicate at (valid, filter, qual_ok)=%s; extracted: %s' % (bad_r, fr), evals=12)
         else:
-            chk.ok('C12.sibling', 'C12.sibling:roll_fwd:restart', SK + 'roll_fwd', 'restart <=> !accept: 8 rows', evals=8,
+            chk.ok('C12.sibling', 'C12.sibling:roll_fwd:restart', SK + 'roll_fwd', 'restart <=> !accept: 12 rows', evals=12,
                    sample=dict(fn='roll_fwd', formula=fr[:300]))
         for name, idx_vb, vqe in pos:
             key = 'C12.sibling:position:%s' % name.split('::')[-1]
@@ -308,6 +313,17 @@ def run(facts, chk, tier, only=None):
                 if afkb.dominates(s, bb) and f_edge is not None and bb not in reachable_without(afkb, f_edge, avoid_blocks=[s]):
                     guarded = True
             res.append(('filter-under-is_reads:%s' % t.span.split(':')[1], guarded, 'filter call at %s guarded by is_reads' % t.span))
+            # the counting filter has a side effect: it may only be consulted for observations whose middle base passed the quality rule
+            mq = [(b2, c2) for b2, c2 in afkb.calls() if (c2.callee.name or '').endswith('::middle_base_qual')]
+            after_mq = False
+            for b2, c2 in mq:
+                sw2 = c2.target
+                st2 = afkb.blocks[sw2].term
+                if st2.k == 'switch' and afkb.dominates(sw2, bb):
+                    f_edge = next((tg for v, tg in st2.targets if v == 0), None)
+                    if f_edge is not None and bb not in reachable_without(afkb, f_edge, avoid_blocks=[sw2] + [x for x, c3 in afkb.calls() if (c3.callee.name or '').endswith('get_next_kmer') or (c3.callee.name or '').endswith('FastxReader::next')]):
+                        after_mq = True
+            res.append(('filter-after-midqual:%s' % t.span.split(':')[1], after_mq, 'filter call at %s is reached only after middle_base_qual() returned true (low-quality observations are not counted)' % t.span))
         return res
     r = chk.guard('C12.life', 'C12.life:SkaDict', life)
     if r is not None:
@@ -315,6 +331,8 @@ def run(facts, chk, tier, only=None):
             key = 'C12.life:%s' % nm.split(':')[0] if nm.startswith('filter-under') else 'C12.life:%s' % nm
             if nm.startswith('filter-under'):
                 key = 'C12.life:filter-under-is_reads:%s' % ('first' if not any(i['key'] == 'C12.life:filter-under-is_reads:first' for i in chk.instances) else 'loop')
+            if nm.startswith('filter-after'):
+                key = 'C12.life:filter-after-midqual:%s' % ('first' if not any(i['key'] == 'C12.life:filter-after-midqual:first' for i in chk.instances) else 'loop')
             if ok:
                 chk.ok('C12.life', key, 'ska_dict::SkaDict', why)
             else:
